@@ -306,8 +306,9 @@ def run_shard(spec, shard):
     def body(r):
         quote = r.choice("'\"")
         parts, decoded, kinds = [], [], set()
+        specials = r.random() < 0.3     # sequences over the few characters that escapes are made of: escapes next to escapes
         for _ in range(r.randrange(1, 9)):
-            cp = r.choice(r.choice(pools))
+            cp = r.choice([0x5C, 0x5C, 0x27, 0x22, 0x2F, 0x62, 0x6E, 0x75, 0x30, 0x41]) if specials else r.choice(r.choice(pools))
             kind, text = r.choice(spellings(cp, quote))
             parts.append(text)
             decoded.append(chr(cp))
